@@ -13,6 +13,7 @@
 package server
 
 import (
+	"crypto/sha256"
 	"sort"
 	"bytes"
 	"context"
@@ -542,8 +543,8 @@ func vhtunRunConn(env *vhtunEnv, spec vhtunConn) (out vhtunConnOut) {
 		}
 	}()
 	wg.Wait()
-	out.SentUp, out.GotUp = hex.EncodeToString(upData), hex.EncodeToString(gotUp)
-	out.SentDown, out.GotDown = hex.EncodeToString(dnData), hex.EncodeToString(gotDn)
+	out.SentUp, out.GotUp = vhtunShow(upData, gotUp)
+	out.SentDown, out.GotDown = vhtunShow(dnData, gotDn)
 	// close one end, the other must see end-of-stream (and nothing more)
 	start = time.Now()
 	_ = closerConn.Close()
@@ -699,4 +700,27 @@ finish:
 	if err := os.WriteFile(os.Getenv("VERIF_OUT"), b, 0o644); err != nil {
 		t.Fatal(err)
 	}
+}
+
+// streams above 256 KiB leave the process as a fingerprint "big:<length>:<sha256>:<offset of the first differing byte or -1>"
+// (hex-encoding megabytes into the JSON output would dominate the run)
+func vhtunShow(sent, got []byte) (string, string) {
+	if len(sent) <= 256*1024 && len(got) <= 256*1024 {
+		return hex.EncodeToString(sent), hex.EncodeToString(got)
+	}
+	diff := -1
+	for i := 0; i < len(sent) && i < len(got); i++ {
+		if sent[i] != got[i] {
+			diff = i
+			break
+		}
+	}
+	if diff == -1 && len(sent) != len(got) {
+		diff = len(got)
+		if len(sent) < len(got) {
+			diff = len(sent)
+		}
+	}
+	hs, hg := sha256.Sum256(sent), sha256.Sum256(got)
+	return fmt.Sprintf("big:%d:%x:%d", len(sent), hs[:8], -1), fmt.Sprintf("big:%d:%x:%d", len(got), hg[:8], diff)
 }
